@@ -58,7 +58,7 @@ pub fn fuzz_one(data: &[u8]) -> Vec<String> {
     let mode = (data[0] & 0xfc) | modes[(data[0] % 4) as usize % modes.len()];
     let body = &data[1..];
     let mut ctx = new_ctx("fuzz");
-    let opts = Opts { debug: mode & 0x20 != 0, debug_whole: mode & 0x40 != 0 };
+    let opts = Opts { debug: mode & 0x20 != 0, debug_whole: mode & 0x40 != 0, strict_extent: false };
     let mut tr = Tr::new(true, false);
     match mode % 4 {
         0 => {
